@@ -1,12 +1,12 @@
 package main
 
 import (
-	"sort"
 	"fmt"
 	"go/ast"
 	"go/constant"
 	"go/token"
 	"go/types"
+	"sort"
 	"strings"
 
 	"golang.org/x/tools/go/ssa"
@@ -488,7 +488,25 @@ func checkC20(c *Ctx, r *Report) {
 			}
 			nSet++
 			k := fnKey(f)
-			r.Check(k == authPkg+".CreateSession" || k == authPkg+".GetSession", "C20.R4", "sessionStore.Set in "+k, c.InstrPos(call), "session stored by CreateSession / GetSession only", "a session is put into the store outside CreateSession/GetSession")
+			// the two functions themselves, or a helper nothing else calls (extendLocked)
+			var ownedBy func(g *ssa.Function, d int) bool
+			ownedBy = func(g *ssa.Function, d int) bool {
+				gk := fnKey(g)
+				if gk == authPkg+".CreateSession" || gk == authPkg+".GetSession" {
+					return true
+				}
+				cs := li.Callers[g]
+				if d > 2 || len(cs) == 0 {
+					return false
+				}
+				for _, site := range cs {
+					if !ownedBy(site.in.Parent(), d+1) {
+						return false
+					}
+				}
+				return true
+			}
+			r.Check(ownedBy(f, 0), "C20.R4", "sessionStore.Set in "+k, c.InstrPos(call), "session stored by CreateSession / GetSession (or a helper only they call)", "a session is put into the store outside CreateSession/GetSession")
 		})
 	}
 	r.Floor("C20.R4", nSet, 2, "session store writes")
@@ -578,6 +596,79 @@ func checkC20(c *Ctx, r *Report) {
 		r.Check(ok, "C20.R4", "logout deletes the session", c.Pos(f.Pos()), "logout handler reaches sessionStore.Delete", "logout does not remove the session from the store: the cookie stays valid")
 	}
 
+	// ... and the removal does not depend on which copy of the session the caller holds. Sessions are replaced, not
+	// modified, when they are extended: the object a logout request resolved a moment ago may no longer be the one in
+	// the store. A removal guarded by "the store still holds this very object" then removes nothing and the id stays
+	// valid. Guards accepted: the id is (not) in the store; identity of two values both read from the store.
+	for _, f := range c.FuncsNamed("(*" + authPkg + ".Session).Destroy") {
+		nDel := 0
+		for _, hc := range helperContexts(f, 2) {
+			eachInstr(hc.fn, func(in ssa.Instruction) {
+				del, ok := in.(*ssa.Call)
+				if !ok || !strings.HasSuffix(calleeName(del), "syncmap.SyncMap).Delete") {
+					return
+				}
+				nDel++
+				fromStore := func(v ssa.Value, ctx dctx) bool {
+					v = resolveVal(v)
+					for hop := 0; hop < 4; hop++ {
+						prm, isP := v.(*ssa.Parameter)
+						if !isP {
+							break
+						}
+						a, c2, okA := paramArg(prm, ctx)
+						if !okA {
+							return false
+						}
+						v, ctx = resolveVal(a), c2
+					}
+					ex, isE := v.(*ssa.Extract)
+					if !isE || ex.Index != 0 {
+						return false
+					}
+					gc, isC := ex.Tuple.(*ssa.Call)
+					return isC && strings.HasSuffix(calleeName(gc), "syncmap.SyncMap).Get")
+				}
+				bad := ""
+				type site struct {
+					g   *ssa.Function
+					in  ssa.Instruction
+					ctx dctx
+				}
+				sites := []site{{hc.fn, del, hc.ctx}}
+				for i, cs := range hc.ctx {
+					g := f
+					if i > 0 {
+						g = helperBody(hc.ctx[i-1])
+					}
+					if g != nil {
+						sites = append(sites, site{g, cs, hc.ctx[:i]})
+					}
+				}
+				for _, st := range sites {
+					for _, fc := range factsAt(st.g, st.in) {
+						cv, _ := stripNot(fc.cond)
+						bo, isB := cv.(*ssa.BinOp)
+						if !isB || (bo.Op != token.EQL && bo.Op != token.NEQ) {
+							continue
+						}
+						if _, isPtr := bo.X.Type().Underlying().(*types.Pointer); !isPtr || isNilConst(bo.X) || isNilConst(bo.Y) {
+							continue
+						}
+						if !strings.HasSuffix(canonTypes(bo.X.Type().String()), "auth.Session") {
+							continue
+						}
+						if !fromStore(bo.X, st.ctx) || !fromStore(bo.Y, st.ctx) {
+							bad = c.InstrPos(bo)
+						}
+					}
+				}
+				r.Check(bad == "", "C20.R4", "logout removes the session id whatever copy of the session the caller holds", c.InstrPos(del), "the removal is not conditional on the identity of a session object held by the caller", "the removal of the session in Destroy is conditional on the store still holding the very object the caller resolved earlier (comparison at "+bad+"): a request that extended the session in between has replaced that object, logout then removes nothing and the cookie stays valid for another lifetime")
+			})
+		}
+		r.Floor("C20.R4", nDel, 1, "session removals reachable from Destroy")
+	}
+
 	// ---- R5
 	for _, f := range c.FuncsNamed(authPkg + ".GetSession") {
 		found, polarityNote := false, ""
@@ -591,6 +682,9 @@ func checkC20(c *Ctx, r *Report) {
 				if fv, _, ok := fieldOf(l); ok && fname(fv) == "ExpiresAt" {
 					dependsOnExpiry = true
 				}
+			}
+			if _, known := expiredWhenTrue(iff.Cond); known {
+				dependsOnExpiry = true // also through a predicate helper (sess.expiredAt(now))
 			}
 			if !dependsOnExpiry {
 				continue
@@ -670,19 +764,38 @@ func checkC20(c *Ctx, r *Report) {
 				common = inter(common, held)
 			}
 		}
-		for _, f := range c.FuncsNamed(authPkg + ".GetSession") {
-			eachCall(f, func(call ssa.CallInstruction, n string) {
-				if strings.HasSuffix(n, "syncmap.SyncMap).Get") || strings.HasSuffix(n, "syncmap.SyncMap).Set") {
-					note(call.(ssa.Instruction))
+		noteCtx := func(in ssa.Instruction, ctx dctx) {
+			nOps++
+			held := li.HeldMust(in).clone()
+			for _, cs := range ctx {
+				for k := range li.HeldMust(cs) {
+					held[k] = true
 				}
-			})
+			}
+			if common == nil {
+				common = held
+			} else {
+				common = inter(common, held)
+			}
+		}
+		_ = note
+		for _, f := range c.FuncsNamed(authPkg + ".GetSession") {
+			for _, hc := range helperContexts(f, 2) {
+				eachCall(hc.fn, func(call ssa.CallInstruction, n string) {
+					if strings.HasSuffix(n, "syncmap.SyncMap).Get") || strings.HasSuffix(n, "syncmap.SyncMap).Set") {
+						noteCtx(call.(ssa.Instruction), hc.ctx)
+					}
+				})
+			}
 		}
 		for _, f := range c.FuncsNamed("(*" + authPkg + ".Session).Destroy") {
-			eachCall(f, func(call ssa.CallInstruction, n string) {
-				if strings.HasSuffix(n, "syncmap.SyncMap).Delete") {
-					note(call.(ssa.Instruction))
-				}
-			})
+			for _, hc := range helperContexts(f, 2) {
+				eachCall(hc.fn, func(call ssa.CallInstruction, n string) {
+					if strings.HasSuffix(n, "syncmap.SyncMap).Delete") {
+						noteCtx(call.(ssa.Instruction), hc.ctx)
+					}
+				})
+			}
 		}
 		// the SyncMap's own lock is taken and released inside each method: it does not span two calls
 		for k := range common {
@@ -895,6 +1008,12 @@ func expiredWhenTrue(cond ssa.Value) (expired bool, known bool) {
 }
 
 func expiredWhenTrueF(cond ssa.Value, field string) (expired bool, known bool) {
+	return expiredWhenTrueEnv(cond, field, nil)
+}
+
+// expiredWhenTrueEnv: env binds the parameters of a predicate helper to the arguments it was called with
+// (sess.expiredAt(now) with now := time.Now() in the caller).
+func expiredWhenTrueEnv(cond ssa.Value, field string, env map[*ssa.Parameter]ssa.Value) (expired bool, known bool) {
 	v, positive := stripNot(cond)
 	isExpiry := func(x ssa.Value) bool {
 		return derivesFrom(x, func(y ssa.Value) bool {
@@ -902,8 +1021,28 @@ func expiredWhenTrueF(cond ssa.Value, field string) (expired bool, known bool) {
 			return ok && fname(fv) == field
 		})
 	}
-	isNow := func(x ssa.Value) bool {
+	var isNow func(x ssa.Value) bool
+	isNow = func(x ssa.Value) bool {
 		return derivesFrom(x, func(y ssa.Value) bool {
+			if prm, isP := y.(*ssa.Parameter); isP && env != nil && env[prm] != nil {
+				a := env[prm]
+				if _, again := a.(*ssa.Parameter); !again {
+					return isNow(a)
+				}
+				return false
+			}
+			if fvar, isFV := y.(*ssa.FreeVar); isFV {
+				// an instant taken once before a loop whose body is a literal (range over a func iterator) and captured
+				if b := freeVarBinding(fvar); b != nil {
+					for _, st := range storesTo(b) {
+						if !isNow(st.Val) {
+							return false
+						}
+					}
+					return len(storesTo(b)) > 0
+				}
+				return false
+			}
 			c, ok := y.(*ssa.Call)
 			return ok && calleeName(c) == "time.Now"
 		})
@@ -923,7 +1062,13 @@ func expiredWhenTrueF(cond ssa.Value, field string) (expired bool, known bool) {
 				}
 			})
 			if nr == 1 && len(only.Results) == 1 {
-				if e, k := expiredWhenTrueF(only.Results[0], field); k {
+				henv := map[*ssa.Parameter]ssa.Value{}
+				for i, prm := range h.Params {
+					if i < len(args) {
+						henv[prm] = args[i]
+					}
+				}
+				if e, k := expiredWhenTrueEnv(only.Results[0], field, henv); k {
 					if positive {
 						return e, true
 					}
@@ -956,7 +1101,8 @@ func expiredWhenTrueF(cond ssa.Value, field string) (expired bool, known bool) {
 		// time.Until(ExpiresAt) <= 0 / < 0 ; time.Since(ExpiresAt) >= 0 / > 0
 		cv, okc := constInt(x.Y)
 		call, isCall := x.X.(*ssa.Call)
-		if okc && cv == 0 && isCall && len(call.Call.Args) == 1 && isExpiry(call.Call.Args[0]) {
+		// with a margin: time.Until(ExpiresAt) < K for K >= 0 (expired, or about to be), time.Since(ExpiresAt) > -K
+		if okc && isCall && len(call.Call.Args) == 1 && isExpiry(call.Call.Args[0]) && ((calleeName(call) == "time.Until" && cv >= 0) || (calleeName(call) == "time.Since" && cv <= 0)) {
 			switch calleeName(call) {
 			case "time.Until":
 				if x.Op == token.LEQ || x.Op == token.LSS {
